@@ -156,8 +156,12 @@ WriteOk(id, rx, rw, len, obs, st) ==
   /\ UNCHANGED <<live, opts, prevRes>>
 
 (* ---- reset ---- *)
-ResetOk(policy, init, st) ==
+(* `wiped`: every byte of a span that was live before the call and is still mapped afterwards carries the fill  *)
+(* pattern ("released ... memory ... carries the fill pattern when filling is enabled"; a reset releases every span, *)
+(* and reset(kSoft) keeps one block per pool mapped, which is where the old code would otherwise stay readable).     *)
+ResetOk(policy, init, wiped, st) ==
   /\ init
+  /\ (opts.fill => wiped)
   /\ live' = <<>>
   /\ StatsOK(live', st)
   /\ Known(st) => st.blk <= (IF policy = "hard" \/ opts.imm THEN 0 ELSE opts.pools)
